@@ -220,6 +220,20 @@ struct Rig
     }
     Rig(const Rig &) = delete;
     Rig &operator=(const Rig &) = delete;
+    // the library's set-up call on the same buffer: everything received before it is forgotten
+    int reinits = 0;
+    void reinit()
+    {
+        mc::crash_context("C05.%s.init.memory", gs::codec_name(codec));
+        r->reinit();
+        mc::crash_context("C05.harness");
+        reinits++;
+        stream.clear();
+        last = gs::CONTINUE;
+        mon.close_frame(); // back to "no start marker seen", nothing stored
+        if (r->stored() != 0)
+            mon.viol(mon.sig("init.line_not_empty_after_reinit"), "cap=%d: %zu bytes stored right after re-initialisation", cap, r->stored());
+    }
     gs::Status feed(uint8_t b)
     {
         mc::crash_context("C05.%s.newchar.memory", gs::codec_name(codec));
